@@ -18,7 +18,7 @@ Task: make ONE small, realistic change to the library code under %(wt)s/behave/ 
 
 Deliver, all inside %(wt)s:
  1. the change itself, left UNCOMMITTED in the worktree (I will take `git diff`); touch only files under behave/;
- 2. a demonstration file %(wt)s/demo_%(id)s.py: a small self-contained program (plain behave API, no pytest needed) that exits 0 on the original code and exits 1 (printing what went wrong) with your change. Verify both: run it with your change, then `git stash`, run it again, `git stash pop`.
+ 2. a demonstration file %(wt)s/demo_%(id)s.py: a small self-contained program (plain behave API, no pytest needed) that exits 0 on the original code and exits 1 (printing what went wrong) with your change. Verify both: run it with your change, then `git diff > p.patch; git apply -R p.patch ... git apply p.patch (never git stash: shared between worktrees)`, run it again, then re-apply the patch.
  3. a file %(wt)s/NOTE_%(id)s.md with 5-10 lines: what you changed, why it breaks the property, what exactly is needed for it to manifest, and the pytest summary lines before/after.
 Final message: the one-paragraph summary from NOTE plus the two demo outputs.""" % {
     "wt": wt, "id": p["id"], "title": p["title"], "statement": p["statement"], "quant": p["quantifier"]["text"],
